@@ -153,7 +153,9 @@ CLAIMED = {
             "TLC enumerates closed cells and loops in charts adapted to each body (Cartesian, cylindrical, spherical, affine) in free space, inside a magnet, cutting its boundary "
             "and enclosing it, sizes 1e-2..1e2, with the exact breakpoints where faces/edges cross material surfaces, and checks the geometry library (linking number invariant under "
             "joint rigid motion, antisymmetric, additive, zero when separated). The harness integrates the returned B over faces and H along edges (order 32 vs 16 error estimate; "
-            "instances that cannot be measured to 1e-8 are discarded, never rejected); TLC requires flux 0 and circulation = sum I*Lk within 1e-7 of the gross scale.",
+            "instances that cannot be measured to 1e-8 are discarded, never rejected); TLC requires flux 0 and circulation = sum I*Lk within 1e-7 of the gross scale. "
+            "Also enumerated: tiny closed cells straddling the interior of a face of a body 1e3-3e4 lattice units large (offsets 2e-4..3e-5 of the facet size) and cells of width 1 hugging "
+            "the symmetry axes of Circle, Cylinder, CylinderSegment, Dipole, Sphere (1e-3, 1e-4 of the radius), where surface masks and on-axis special cases live.",
             "Trusted: TLC, the quadrature (self-estimated error), quantization. Cells and loops are enumerated families, not all closed surfaces.",
             "DESIGN.md section 5 C14"),
     "C01": ("exploration",
@@ -162,7 +164,9 @@ CLAIMED = {
             "theorem a field with zero flux, circulation equal to the threaded current, B = mu0 H + J with the known J (C02) and the right dipole limit at infinity IS the field of the "
             "integrals. Cells and loops straddle each documented switch surface of each formula (listed with file:line in Integral!Switch) inside and outside the body at relative sizes "
             "1e-3..1e3; a wrong sign/factor/term in one branch shows as a flux or circulation residual. The far-field law (150-5000 sizes) and the closed forms that are first principles "
-            "(Dipole, Sphere inside/outside) are checked as integer identities in TLC. Pointwise equality is implied only to the extent these sampled laws pin the field.",
+            "(Dipole, Sphere inside/outside) are checked as integer identities in TLC. At points exactly ON measure-zero special sets (axes incl. the r1 = 0 segment axis beyond the faces, "
+            "centre lines, switch planes, segment extension lines), which no integral can see, the local form of the laws is checked: the lattice mean-value law "
+            "sum_6 f(c +- h e_k) - 6 f(c) = O(h^4), stated and judged in TLA+ on seven logged field vectors. Pointwise equality is implied only to the extent these sampled laws pin the field.",
             "Indirect claim (see DESIGN.md section 5 C01 and section 8); a switch not listed in Integral!Switch is not covered; unmeasurable instances are not verdicts.",
             "DESIGN.md section 5 C01"),
 }
